@@ -36,6 +36,9 @@
 (*   EncT[codec][sym]  = the bytes (as a hex string) or "none"             *)
 (*   DecT[codec][hex]  = the symbol those bytes decode to, or "fail"       *)
 (*   EncE[codec][errors][sym] = bytes of sym.encode(codec, errors) | "exc" *)
+(*   (output codecs are arbitrary: also BOM-emitting and non-ASCII-        *)
+(*   compatible ones; Prefix[codec] is the BOM; "skT"/"skB" are the ASCII  *)
+(*   pieces of the rendered document)                                      *)
 (* Codec names are identifier-safe strings here ("utf_8" stands for the    *)
 (* spelling "utf-8", "utf8" for an alias spelling of it).                  *)
 (* Decoding is compositional over symbols because every non-ASCII symbol   *)
@@ -46,6 +49,7 @@ EXTENDS Naturals, Sequences, FiniteSets, TLC
 CONSTANTS Codecs,      \* spellings of codec names usable in comment / input_encoding / output_encoding
           Canon,       \* spelling -> canonical codec (row of the tables); "utf8" is an alias of "utf_8"
           EncT, DecT, EncE,
+          Prefix,      \* output codec -> what it emits before the first character (a BOM), "h" when nothing
           Cells,       \* the set of cells to run
           Emit         \* print the expected observations of every finished cell
 VARIABLES cell, pc, enc, res, text, content, modfile, loaded, src, uni, out
@@ -56,12 +60,12 @@ NoMod == [coding |-> None, lits |-> <<>>]
 Idx == 1..Len(cell.c)
 \* the body of the template as given: for bytes, each character encoded with the codec the author used
 Given(c) == [i \in 1..Len(c.c) |-> EncT[c.x][c.c[i]]]
-DecodeWith(codec, hexes) == [i \in 1..Len(hexes) |-> DecT[Canon[codec]][hexes[i]]]
+DecodeWith(codec, hexes) == LET tab == DecT[Canon[codec]] IN [i \in 1..Len(hexes) |-> tab[hexes[i]]]
 Fails(syms) == \E i \in 1..Len(syms) : syms[i] = "fail"
 
 InitRest == /\ pc = "decide" /\ enc = None /\ res = "ok"
             /\ text = <<>> /\ content = <<>> /\ modfile = NoMod /\ loaded = <<>> /\ src = <<>> /\ uni = <<>>
-            /\ out = [ty |-> None, v |-> <<>>]
+            /\ out = [ty |-> None, pre |-> "h", v |-> <<>>]
 Init == cell \in Cells /\ InitRest
 
 (* ---------------- Lexer.decode_raw_stream ---------------- *)
@@ -129,13 +133,19 @@ Source ==
 RenderU ==   \* as_unicode: FastEncodingBuffer() without encoding
   /\ pc = "renderu" /\ uni' = loaded /\ pc' = "render"
   /\ UNCHANGED <<cell, enc, res, text, content, modfile, loaded, src, out>>
+\* The rendered document of a generated template: fixed ASCII pieces around the two characters.  getvalue() joins
+\* the writes and encodes the WHOLE string once: the codec's prefix (a BOM for utf-8-sig / utf-16 / utf-32) and then
+\* every piece -- the ASCII pieces too, which an output codec need not map to the ASCII bytes (utf-16, cp037, ...).
+Whole(syms) == <<"skT", syms[1], "skB", syms[2], "skB", syms[1], "skB", syms[2], "skB">>
 EncodeOut(codec, errs, syms) ==
-  LET b == [i \in 1..Len(syms) |-> EncE[Canon[codec]][errs][syms[i]]] IN
-  IF \E i \in 1..Len(b) : b[i] = "exc" THEN [ty |-> "exc", v |-> <<"UnicodeEncodeError">>]
-  ELSE [ty |-> "bytes", v |-> b]
+  LET w == Whole(syms)
+      tab == EncE[Canon[codec]][errs]          \* (bound once: the table is looked up a single time per document)
+      b == [i \in 1..Len(w) |-> tab[w[i]]] IN
+  IF \E i \in 1..Len(b) : b[i] = "exc" THEN [ty |-> "exc", pre |-> "h", v |-> <<"UnicodeEncodeError">>]
+  ELSE [ty |-> "bytes", pre |-> Prefix[Canon[codec]], v |-> b]
 Render ==    \* FastEncodingBuffer(encoding=output_encoding, errors=encoding_errors).getvalue()
   /\ pc = "render" /\ pc' = "done"
-  /\ out' = (IF cell.oe = None THEN [ty |-> "str", v |-> loaded] ELSE EncodeOut(cell.oe, cell.errs, loaded))
+  /\ out' = (IF cell.oe = None THEN [ty |-> "str", pre |-> "h", v |-> loaded] ELSE EncodeOut(cell.oe, cell.errs, loaded))
   /\ UNCHANGED <<cell, enc, res, text, content, modfile, loaded, src, uni>>
 
 Observation == [id |-> cell.id, res |-> res, enc |-> (IF enc = None THEN None ELSE Canon[enc]),
@@ -166,6 +176,6 @@ SameTemplateAsDecodedText ==
   /\ (pc \in {"import", "import2", "newproc"}) => Canon[modfile.coding] = Canon[Declared(cell)]
 RenderUnicodeIgnoresOutputEncoding == (pc \in {"render", "done"}) => uni = DecodedText(cell)
 RenderEncodes == (pc = "done") =>
-      IF cell.oe = None THEN out = [ty |-> "str", v |-> uni]
+      IF cell.oe = None THEN out = [ty |-> "str", pre |-> "h", v |-> uni]
       ELSE out = EncodeOut(cell.oe, cell.errs, uni)
 =============================================================================
